@@ -100,6 +100,61 @@ def graft(ctx, F, g):
         v = pa[1]
         if v[0] == 'agg' and v[1] == 'tuple' and v[2][0] == ('field', edge, 'target_idx') and is_call(v[2][1], 'Tree::add_child_node') and v[2][1][3] == bb:
             oks = True
+    # every other pair put on the worklist (the branch kept when all were rejected) is also (target of an operand edge, the copy made for it):
+    # taken out of a side list whose entries are (label, edge target, copy)
+    for pb, pa, pt in pushes:
+        if s(pa[0]) != s(wl) or (pb, pa, pt) in seeds:
+            continue
+        v = pa[1]
+        if v[0] == 'agg' and v[1] == 'tuple' and len(v[2]) == 2 and v[2][0] == ('field', edge, 'target_idx') and is_call(v[2][1], 'Tree::add_child_node'):
+            continue
+        good = False
+        main = [s(q_[1][1]) for q_ in steps if q_[1][1][0] == 'agg' and is_call(q_[1][1][2][-1] if q_[1][1][2] else ('x',), 'Tree::add_child_node')]
+        main += [s(q_[1][1]) for q_ in steps if q_[1][1][0] != 'agg']
+
+        def project(e_, name_):
+            if e_[0] == 'agg' and e_[1] == 'tuple' and str(name_).isdigit() and int(name_) < len(e_[2]):
+                return e_[2][int(name_)]
+            if e_[0] == 'agg' and isinstance(e_[1], tuple) and e_[1][0] == 'adt' and len(e_[1]) > 3 and name_ in e_[1][3]:
+                return e_[2][list(e_[1][3]).index(name_)]
+            return None
+
+        def from_side(x_):
+            """x_ = popped side-list element projected along a field path -> (side list, path) or None"""
+            path_ = []
+            while x_[0] == 'field':
+                path_.append(x_[2])
+                x_ = x_[1]
+            pops_ = [y for y in walk(x_) if is_call(y, 'Vec::pop')]
+            if not pops_ or s(pops_[0][2][0]) == s(wl):
+                return None
+            return pops_[0][2][0], list(reversed(path_))
+
+        def value_in_entries(x_):
+            fs_ = from_side(s(x_))
+            if fs_ is None:
+                return None
+            side_, path_ = fs_
+            vals_ = []
+            for q_ in pushes:
+                if s(q_[1][0]) != s(side_):
+                    continue
+                e_ = s(q_[1][1])
+                for nm_ in path_:
+                    e_ = project(e_, nm_) if e_ is not None else None
+                vals_.append(e_)
+            return vals_
+        TGT = s(('field', edge, 'target_idx'))
+        if v[0] == 'agg' and v[1] == 'tuple' and len(v[2]) == 2:
+            a0_, a1_ = value_in_entries(v[2][0]), value_in_entries(v[2][1])
+            good = bool(a0_) and bool(a1_) and all(x_ is not None and s(x_) == TGT for x_ in a0_) and all(x_ is not None and is_call(x_, 'Tree::add_child_node') for x_ in a1_)
+        else:
+            # the pair travels as one value (a small struct): what is pushed on the worklist later is what the main step would have pushed
+            av_ = value_in_entries(v)
+            mains_ = [s(q_[1][1]) for q_ in steps if (q_[0], q_[1], q_[2]) != (pb, pa, pt) and from_side(s(q_[1][1])) is None]
+            good = bool(av_) and bool(mains_) and all(x_ is not None and s(x_) == mains_[0] for x_ in av_)
+        if not good:
+            oks = False
     if okc and oks:
         ctx.ok('C02.R1', Q + '#pairing', 'the new node holds the rewritten value of the edge\'s target and is paired with that target for the next round', t['span'])
     else:
